@@ -200,6 +200,8 @@ class Outcome:
         self.confs = confs  # list of conf keys of the final _confs
         self.detail = detail
         self.args = args
+        self.where = None
+        self.obj = None
 
     def canon(self):
         if self.kind != "ok":
@@ -263,7 +265,9 @@ def real_parse(variant, conf_path=None, argv=None):
 
         tb = traceback.extract_tb(e.__traceback__)
         where = "%s:%d" % (os.path.basename(tb[-1].filename), tb[-1].lineno) if tb else "?"
-        return Outcome("exc", detail="%s: %s at %s" % (type(e).__name__, e, where), args=args)
+        o = Outcome("exc", detail="%s: %s at %s" % (type(e).__name__, e, where), args=args)
+        o.where = tb[-1].name if tb else None
+        return o
     s = dict(p.settings._v)
     s.pop("load_phonopy_yaml", None)  # not a settings attribute: `default_settings` carries the key of argparse_control
     o = Outcome("ok", settings=s, confs=list(p.confs.keys()), args=args)
